@@ -3,9 +3,9 @@ from fractions import Fraction
 from collections import Counter
 from .. import tlc
 from ..common import Emb, unfl, run_driver_parallel
-LEVEL = "exploration"
+LEVEL = "model_checking"
 
-RULE = ("PlotScene.tla states the expected scene as a function of the inputs. Diagram plots: one scatter collection per plotted diagram "
+RULE = ("M: PlotMachine.tla -- plot_diagrams as a state machine, one action per step of the code, checked against the scene C20 describes for every call within the constants; the step orders of two defects (labels numbered after plot_only; infinity line placed before the lifetime reset) are refuted. R: the calls TLC enumerated, with the machine's limits and infinity-line ordinate (algorithm layer, divergence only), replayed on the real function. V: PlotScene.tla states the expected scene as a function of the inputs. Diagram plots: one scatter collection per plotted diagram "
         "(after plot_only), offsets = (birth, death) or (birth, death-birth) exactly on the float32 lattice, infinite deaths on one "
         "horizontal line strictly inside the y-limits with an infinity line drawn, limits containing all finite points (or the requested "
         "xy_range), axis labels, title, legend presence and texts. Matching plots (bottleneck and Wasserstein matchings returned by the real "
@@ -37,7 +37,6 @@ def gen_dgm(rng, n, inf_ok=True):
 def run(ctx):
     quick = ctx.tier == "quick"
     ctx.rule = RULE
-    ctx.level = "exploration"
     ctx.assumptions += ["coordinates are compared exactly on a float32-exact lattice (small multiples of 1/4, 1, 2)", "3-D landscape plots and the imager's own plot helpers are only executed (C19), not modelled"]
     rng = ctx.rng
     jobs, skel = [], []
@@ -99,7 +98,52 @@ def run(ctx):
             job.update(start=e.f(0), stop=e.f(16), n=rng.choice([5, 9, 17]))
         jobs.append(job)
         skel.append(dict(kind="landscape", q=Q, emb=e, title=title, wantx=(labels[0] if labels else ""), wanty=(labels[1] if labels else ""), dr=dr))
-    judge(ctx, jobs, skel)
+    mj, ms = machine(ctx, quick)
+    judge(ctx, mj + jobs, ms + skel)
+
+
+MACHINE_INVS = ["OneCollectionPerPlottedDiagram", "CoordinatesAreTheData", "InfiniteDeathsOnOneLineInside", "InfinityLineAboveFinitePoints",
+                "LimitsContainFinitePoints", "TitleAndLegendAsRequested", "LabelBelongsToItsDiagram", "DiagonalOnlyWhenAsked"]
+
+
+def machine(ctx, quick):
+    """M: PlotMachine.tla (plot_diagrams as a state machine) for every call within the constants, two defective step orders refuted;
+    R: the calls TLC enumerated, with the limits and infinity-line position the machine arrives at, replayed on the real function."""
+    rng = ctx.rng
+    for cst in ([dict(MaxV=2, MaxPts=1, MaxDgms=2)] if quick else [dict(MaxV=2, MaxPts=2, MaxDgms=2), dict(MaxV=3, MaxPts=1, MaxDgms=3)]):
+        cst = dict(cst, Variant='"intended"')
+        r = tlc.run_tlc("PlotMachine", workers=16, constants=cst, invariants=MACHINE_INVS, properties=["ArgUntouched"], heap="10g", timeout=14400)
+        ctx.model("PlotMachine (plot_diagrams as a state machine) %s" % cst, r, constants=cst)
+    for var, inv in (("labels_after_select", "LabelBelongsToItsDiagram"), ("inf_before_lifetime", "InfiniteDeathsOnOneLineInside")):
+        r = tlc.run_tlc("PlotMachine", workers=8, constants=dict(MaxV=2, MaxPts=1, MaxDgms=2, Variant='"%s"' % var), invariants=MACHINE_INVS, heap="6g")
+        ctx.model("PlotMachine with the defective step order %s (%s must be refuted)" % (var, inv), r, expect_violation=inv)
+    r = tlc.run_tlc("PlotMachine", workers=4, spec="FairSpec", constants=dict(MaxV=1, MaxPts=1, MaxDgms=2, Variant='"intended"'), properties=["Termination"], heap="4g")
+    ctx.model("PlotMachine liveness under WF (every call returns)", r)
+    r = tlc.run_tlc("PlotMachine", workers=1, constants=dict(MaxV=2, MaxPts=1, MaxDgms=2, Variant='"intended"'), constraints=["PrintDone"], heap="4g")
+    cs = tlc.extract_printed(r["out"], "CASE")
+    if r["error"] or not cs:
+        ctx.machinery_errors.append("PlotMachine case generation failed:\n" + r["out"][-1500:]); return [], []
+    ctx.extra["spec_generated_plot_calls"] = len(cs)
+    rng.shuffle(cs)
+    jobs, skel = [], []
+    INF = 1000000
+    for t, c in enumerate(cs[: (700 if quick else 22080)]):
+        _, dg, po, lifetime, legend, title, given, hasrange, diagonal, lim, binf = c
+        e = E[t % len(E)]
+        dgms = [[[b, (0 if d == INF else d), (0 if d == INF else 1)] for b, d in d_] for d_ in dg]
+        nd = len(dgms)
+        labels = ["lab%d" % i for i in range(nd)] if given else []
+        rngticks = [-1, 2 + 3, -2, 2 + 4]          # PlotMachine!XYRange for MaxV = 2
+        hasinf = any(p[2] == 0 for i in (po or range(nd)) for p in dgms[i])
+        job = dict(kind="diagrams", dgms=[[[e.f(b), e.f(d) if f else float("inf")] for b, d, f in d_] for d_ in dgms], float32=rng.random() < 0.4, repeat_first=False,
+                   plot_only=list(po), lifetime=int(lifetime), legend=int(legend), title=("My title" if title else ""), labels=labels,
+                   xy_range=[e.f(v) for v in rngticks] if hasrange else None, diagonal=bool(diagonal), ax_is_current=rng.random() < 0.5, aslist=nd > 1 or rng.random() < 0.5)
+        # plot_only=[0, ...]: an empty list and [0] are both falsy/truthy in the code as written; keep what TLC chose
+        jobs.append(job)
+        # the machine's numbers are in 1/K ticks of the TICK lattice; the embedding's shift moves x (and y outside lifetime mode)
+        skel.append(dict(kind="diagrams", dgms=dgms, plotonly=list(po), lifetime=int(lifetime), hasrange=int(hasrange), range=rngticks, title=("My title" if title else ""), legend=int(legend),
+                         labels=labels, q=Q, emb=e, alg=[lim[0], lim[1], lim[2], lim[3], (binf if hasinf else None)]))
+    return jobs, skel
 
 
 def judge(ctx, jobs, skel, nproc=12):
@@ -148,6 +192,18 @@ def judge(ctx, jobs, skel, nproc=12):
             c["ylim"] = [D(r["ylim"][0]), D(r["ylim"][1])] if (sk["hasrange"] and not sk["lifetime"]) else [fl_(r["ylim"][0]), ce_(r["ylim"][1])]
             c["xlabel"], c["ylabel"], c["stitle"], c["haslegend"], c["legtexts"] = r["xlabel"], r["ylabel"], r["title"], r["haslegend"], r["legtexts"]
             c["colllabels"], c["reflabels"] = r.get("colllabels", []), r.get("reflabels", [])
+            # algorithm layer: the machine's limits / infinity line against the observed ones (units of 1/(1000 K) tick, K = 200)
+            c["alg"], c["obsalg"], c["algtol"] = [], [], 0
+            if sk.get("alg"):
+                U = 200 * 1000
+                obs = [dec(e, r["xlim"][0]), dec(e, r["xlim"][1]), dec(e, r["ylim"][0]), dec(e, r["ylim"][1])]      # (in 1/Q ticks; the embeddings of this check have no shift)
+                exp = list(sk["alg"][:4])
+                if sk["alg"][4] is not None and groups:
+                    obs.append(Fraction(groups[0]) / e.s * Q); exp.append(sk["alg"][4])
+                c["alg"] = [int(v) * 1000 for v in exp]
+                c["obsalg"] = [int(round(v * U / Q)) if abs(v) < 10 ** 6 else 0 for v in obs]
+                c["algtol"] = 2000          # 1e-2 / K tick: float32 arithmetic of the code on coordinates of a few ticks
+            c.pop("alg_", None)
         elif sk["kind"] == "landscape":
             c.pop("dr", None)
             c["content"] = [[[D(x), D(y)] for x, y in d] for d in r["content"]]
@@ -180,6 +236,8 @@ def judge(ctx, jobs, skel, nproc=12):
         if status == "ok":
             ctx.ok_trace()
             ctx.sample({"job": {k: jobs[i][k] for k in jobs[i] if k not in ("dgms",)}, "verdict": "ok"}, cap=4)
+        elif status == "divergence":
+            ctx.divergence({"clause": clause, "job": jobs[i], "machine": c.get("alg"), "observed": c.get("obsalg")})
         else:
             sk = {k2: v2 for k2, v2 in skel[i].items() if k2 != "emb"}
             sk["embname"] = skel[i]["emb"].name
